@@ -1517,6 +1517,37 @@ def unit_sys(ctx):
 # jobs / main
 # =====================================================================================================================
 
+def unit_words(ctx):
+    """u16/u32/u64 From and To on every count 0..40: [count] octets <-> [(count + k - 1) / k] little-endian words, exact-size
+    buffers on both sides (a ragged count fills the last word with zeros on From and stops inside it on To); in place too"""
+    lib, rng = ctx.lib, ctx.rng
+    rep = Rep(ctx)
+    for k, pfx in ((2, "u16"), (4, "u32"), (8, "u64")):
+        if not (lib.has(pfx + "From") and lib.has(pfx + "To")):
+            continue
+        for count in range(0, 41):
+            src = rb(rng, count)
+            nw = (count + k - 1) // k
+            if ctx.case([pfx + "From", count, src], "words:%s:%s" % (pfx, "ragged" if count % k else "whole")):
+                d = lib.alloc(nw * k)
+                getattr(lib, pfx + "From")(d, lib.mk(src), count)
+                got = lib.rd(d, nw * k)
+                ctx.digest(got)
+                rep.eq(pfx + "From", "value", got, src + bytes(nw * k - count), {"count": count})
+                # the words back into exactly count octets
+                o = lib.alloc(count)
+                getattr(lib, pfx + "To")(o, count, d)
+                back = lib.rd(o, count)
+                ctx.digest(back)
+                rep.eq(pfx + "To", "value", back, src, {"count": count})
+                # in place: the octet buffer is the word array (sized for the words)
+                b = lib.alloc(nw * k)
+                lib.wr(b, src)
+                getattr(lib, pfx + "From")(b, b, count)
+                rep.eq(pfx + "From", "in-place", lib.rd(b, nw * k), src + bytes(nw * k - count), {"count": count})
+                lib.release()
+
+
 def jobs(tier, scale=1.0):
     """about a minute of CPU at scale 1.0, a few seconds at 0.05 (one small job per unit)"""
     s = max(0.02, min(float(scale), 4.0))
@@ -1532,6 +1563,7 @@ def jobs(tier, scale=1.0):
     thin = 4 if s < 0.2 else 1
     add("unit_mem", k, thin=thin, pred=max(20, int(400 * s)))
     add("unit_str", k, thin=thin)
+    js.append({"unit": "c07_misc:unit_words", "params": {}, "always": True})
     add("unit_sys", max(1, round(2 * s)), thin=thin, minmax=max(8, int(100 * s)), atomic=max(8, int(100 * s)))
     add("unit_blob", k, seqs=max(6, int(500 * s)))
     add("unit_obj", k, cases=max(18, int(900 * s)))
